@@ -27,7 +27,7 @@ from . import common, evalcommon as ec
 PROPERTY = 'C10'
 
 META = {
-    'bounds': {'quick': 'stores with 9/14 (11/23) individuals (one with solver choices); in-place update histories; histories of <=3 sync_individual / sync_all operations over <=2 individuals with ids from a 3-value range (repeated ids '
+    'bounds': {'quick': 'sweep runs with default / gradient / worst-case evaluator and a store; stores with 9/14 (11/23) individuals (one with solver choices); in-place update histories; histories of <=3 sync_individual / sync_all operations over <=2 individuals with ids from a 3-value range (repeated ids '
                         'included), a mutation of the individual between syncs; dim 2, 2 objectives; feature kinds written by the framework '
                         '(floats, inf, ints, lists of floats, lists of ids, parent/child references, nested custom data); problem definition with symbolic bounds; '
                         'one NSGA-II skeleton run (N=3, G=2) with the store attached',
